@@ -56,7 +56,7 @@ def run(ck, prog):
         "return that symbol's define_loc / reference_locs unmodified (no filter, sort or dedup); the position map "
         "is written only by add_to_pos_to_symbol_map, called with exactly the location stored in the symbol; "
         "(R06.3) anonymous defs/defms never reach the position map; (R06.4) utils::identifier pairs "
-        "Identifier::value and Identifier::range of the same node with the current file; (R06.5) where one "
+        "Identifier::value and Identifier::range of the same node with the current file; (R06.6) where one "
         "identifier range is registered both as the definition of a new symbol and as a reference to another (a "
         "`let` override of a field), the reference is registered last: the position map (iset insert = replace) "
         "then resolves the range to the referenced symbol, whose reference list contains it.")
@@ -65,7 +65,7 @@ def run(ck, prog):
                  ("R06.2", "one symbol table; handlers return the symbol's own locations unmodified"),
                  ("R06.3", "anonymous symbols are not in the position map"),
                  ("R06.4", "utils::identifier: text and range of the same node, current file"),
-                 ("R06.5", "a range that is both a reference and a definition resolves to the referenced symbol")):
+                 ("R06.6", "a range that is both a reference and a definition resolves to the referenced symbol")):
         ck.rule(r, t)
 
     # ---- R06.1 constructors ----------------------------------------------------------
@@ -148,7 +148,7 @@ def run(ck, prog):
                   b.path, why, b.where(i)))
     ck.floor("R06.1", "add_reference sites", nr, 7)
 
-    # ---- R06.5 one range, two roles ------------------------------------------------------
+    # ---- R06.6 one range, two roles ------------------------------------------------------
     # `let x = ..` in a record body: the identifier is a reference to the overridden field *and* the definition range
     # of the overriding field. The position map keeps the last insertion for a range, and the reference lists still
     # contain the range, so go-to-definition from it must lead to the referenced symbol: the reference goes in last.
@@ -182,14 +182,14 @@ def run(ck, prog):
                         regs.append(j)
             after = b.reachable(t["t"]) if t["t"] is not None else set()
             late = [j for j in regs if j in after]
-            ck.ob("R06.5", "shared-range:%s" % b.path, bool(regs) and not late,
+            ck.ob("R06.6", "shared-range:%s" % b.path, bool(regs) and not late,
                   "the symbol defined at the shared range is registered before the reference to the other symbol",
                   msg="%s: a range is registered as a reference (add_reference [%s]) and afterwards as the definition of a new "
                       "symbol (%s [%s]); the position map keeps the last insertion, so go-to-definition from a range that "
                       "find-references of the referenced symbol returns would lead to a different symbol" % (
                           b.path, b.where(i), (Body.callee(b.term(late[0])) if late else "no registration found"),
                           b.where(late[0]) if late else b.where(ci)))
-    ck.floor("R06.5", "ranges registered both as a definition and as a reference", nshared, 1)
+    ck.floor("R06.6", "ranges registered both as a definition and as a reference", nshared, 1)
 
     # ---- R06.2 handlers ------------------------------------------------------------------
     FIND = "ide::symbol_map::SymbolMap::find_symbol_at"
